@@ -370,8 +370,11 @@ subroutine solve(initial_values, indexes,                                       
            return
         end if
 
-     ! Errors: Raise as required
-     else if(error_control == error_control_raise) then
+     ! Errors: Raise as required. Indexing and offset errors always stop the
+     ! run: the Python wrapper raises an `IndexError` for these, however
+     ! numerical errors are to be treated
+     else if(error_control == error_control_raise                                              &
+          &  .or. error_code < numerical_error_raise .or. error_code >= offset_predates_span) then
         return
      end if
 
